@@ -46,6 +46,11 @@ def slice_with_bool_dask_array(x, index):
 
     out_index = [slice(None) if isinstance(ind, Array) and ind.dtype == bool else ind for ind in index]
 
+    # NumPy combines a mask with another list / array index point-wise; applying
+    # the mask first and the other index afterwards would be an outer product
+    if any(isinstance(ind, (list, np.ndarray, Array)) for ind in out_index):
+        raise NotImplementedError("Don't yet support nd fancy indexing")
+
     # A mask of the wrong (known) length is an error in NumPy; blockwise would
     # instead broadcast a length-1 mask against every block
     full = len(index) == 1 and index[0].ndim == x.ndim
